@@ -50,7 +50,9 @@ func c05(c *Ctx) {
 	c.Rule("R1", "types (reflexive identity)", "every dynamic type stored behind Distinct.iface / Value.slice has reflexive ==: no floating-point element types in reflect.ArrayOf, scalar floats stored as bits, no float field in Value/KeyValue", 7)
 	for _, px := range []*PkgIndex{ix, ax} {
 		info := px.Pkg.TypesInfo
-		for _, s := range px.FindCalls(func(f *FuncInfo, call *ast.CallExpr) bool { return isCallTo(info, call, "reflect.ArrayOf") && len(call.Args) == 2 }) {
+		for _, s := range px.FindCalls(func(f *FuncInfo, call *ast.CallExpr) bool {
+			return isCallTo(info, call, "reflect.ArrayOf") && len(call.Args) == 2
+		}) {
 			call := s.N.(*ast.CallExpr)
 			outer := px.Outer(s.F)
 			c.Analysed(outer)
